@@ -2,7 +2,7 @@
    a forward traversal from it visits every in-bounds sample exactly once; DB.Read of a channel
    (SeekFirst; Next(TimeSpanMax)...) returns exactly the stored samples of the range. *)
 From Coq Require Import ZArith List Bool Lia Sorting.Sorted.
-From Synnax Require Import Cesium.Store Cesium.StoreProofs Cesium.IndexSearch Cesium.IndexSearchProofs
+From Synnax Require Import Cesium.LayoutOk Cesium.Store Cesium.StoreProofs Cesium.IndexSearch Cesium.IndexSearchProofs
      Cesium.Distance Cesium.Stamp Cesium.DomIterProofs Cesium.UnaryIter Cesium.UnaryIterViews
      Cesium.DistanceProofs Cesium.UnaryIterExact Cesium.SliceProofs Cesium.UnaryIterSpec Cesium.Read
      Cesium.UnaryIterViewsRun Cesium.UnaryIterRun Cesium.TruthProofs Cesium.UnaryWrite.
